@@ -118,6 +118,10 @@ THOROUGH_MAIN_CONFIGS = ['b248s6', 'nostd']
 def run(ctx, rep):
     db = ctx.main
     cfg = db.config
+    # layout parameters (builtin ratios, segment indices, component sizes, AIR sizes) and the Felt constants they use
+    nck = common.constants_check(db, rep, 'C14.constants', cfg, layouts=True, other=('swiftness_air::consts::',))
+    rep.floor('C14.constants', 'constants compared with the table', nck, 300)
+    helpers(db, rep, cfg)
     lay = db.layouts()
     rep.floor('C14', 'LayoutTrait impls', len(lay), 7)
     n_builtin = 0
@@ -172,6 +176,40 @@ def extraction(db, rep, lname, lself):
         if any(fieldflow.canon(x) == 'a1.main_page.address' for x in both) and getattr(g, 'kind', None) not in ('discr',) \
                 and g.rel == 'EQ':
             addr_guards.append((g, l, r))
+    # entry conditions of the extraction: register values of the public memory layout
+    MAXA = 'val:%d' % (2 ** 64 - 1)
+    vtab = [
+        Entry('initial-ap<2^64', 'LT', {SEG + 'begin_addr', 'idx:EXECUTION'}, {MAXA}, why='initial ap below MAX_ADDRESS'),
+        Entry('final-ap<2^64', 'LT', {SEG + 'stop_ptr', 'idx:EXECUTION'}, {MAXA}, why='final ap below MAX_ADDRESS'),
+        Entry('no-continuous-pages', 'EMPTY', {'a1.continuous_page_headers'}, set(), why='only the main page is supported'),
+        Entry('initial-pc=1', 'EQ', {SEG + 'begin_addr', 'idx:PROGRAM'}, {'val:1'}, why='the program starts at INITIAL_PC = 1'),
+        Entry('final-pc=initial+4', 'EQ', {SEG + 'stop_ptr', 'idx:PROGRAM'}, {'op:add', 'val:1', 'val:4'},
+              alts=[('EQ', {SEG + 'stop_ptr', 'idx:PROGRAM'}, {'val:5'})], why='the program ends at INITIAL_PC + 4'),
+    ]
+    vm, _ = GT.match_table(db, guards, vtab)
+    for e in vtab:
+        rep.ob('C14.verify', f'{lname}/{e.name}', bool(vm[e.name]),
+               f'{lname}::verify_public_input must require {GT.describe(e.rel, e.lhs, e.rhs)} on every accepting path ({e.why})', v.loc(), cfg)
+    # what is extracted: (offset, first address, length) of the two extract_range calls, as leaf sets
+    calls = [(bi, t) for bi, t in v.calls() if (t['f'].get('resolved') or '').endswith('::extract_range') and len(t['args']) == 4]
+    def nl(op):
+        return {x for x in norm(fl.operand_leaves(op)) if not x.startswith('call:')}
+    want_prog = ({'val:0'}, {SEG + 'begin_addr', 'idx:PROGRAM'},
+                 {SEG + 'begin_addr', 'idx:EXECUTION', 'idx:PROGRAM', 'op:sub', 'val:2'})
+    want_out = (None, {SEG + 'begin_addr', 'idx:OUTPUT'}, {SEG + 'begin_addr', SEG + 'stop_ptr', 'idx:OUTPUT', 'op:sub'})
+    seen_prog = seen_out = False
+    descs = []
+    for bi, t in calls:
+        off, adr, ln = nl(t['args'][1]), nl(t['args'][2]), nl(t['args'][3])
+        descs.append((sorted(off)[:4], sorted(adr), sorted(ln)))
+        if off == want_prog[0] and adr == want_prog[1] and ln == want_prog[2]:
+            seen_prog = True
+        if adr == want_out[1] and ln == want_out[2] and want_out[2] <= off and any(x.startswith('len(a1.main_page') for x in off) and 'op:sub' in off:
+            seen_out = True
+    rep.ob('C14.verify', f'{lname}/program-range', seen_prog and len(calls) == 2,
+           f'program cells = main_page[0 .. initial_fp - 2 - initial_pc) starting at address initial_pc; extract_range calls: {descs}', v.loc(), cfg)
+    rep.ob('C14.verify', f'{lname}/output-range', seen_out and len(calls) == 2,
+           f'output cells = the last (stop - begin) cells of the main page starting at the output segment address; extract_range calls: {descs}', v.loc(), cfg)
     prog = [g for g, l, r in addr_guards if any(x in ('idx:PROGRAM', 'val:1') or x.endswith('INITIAL_PC') for x in l | r)]
     outp = [g for g, l, r in addr_guards if 'idx:OUTPUT' in (l | r)]
     rep.ob('C14.address', f'{lname}/program-addresses', bool(prog),
@@ -211,3 +249,29 @@ def extraction(db, rep, lname, lself):
         rep.ob('C14.hashes', f'{lname}/{what}-hash', ok,
                f'{what} hash must be a Pedersen chain over main-page values and a count; leaves: {sorted(x for x in lv if not x.startswith("a1.segments"))[:6]}',
                v.loc(), cfg)
+
+
+def helpers(db, rep, cfg):
+    """the two arithmetic helpers of the layouts: safe_mult(a, b) yields a * b and accepts only when the field product
+    equals the integer product; safe_div(a, b) is the floor quotient by a non-zero b"""
+    import exprtree
+    A1, A2 = ('arg', 1), ('arg', 2)
+    PROD = ('mul', A1, A2)
+    sm = db.fns.get('swiftness_air::layout::safe_mult')
+    if sm is not None and sm.has_mir:
+        T = exprtree.Trees(db, sm)
+        muls = [tuple(T.operand(a) for a in t['args']) for _, t in sm.calls() if t['f'].get('name') == 'mul']
+        cmps = [tuple(T.operand(a) for a in t['args']) for _, t in sm.calls() if t['f'].get('name') in ('cmp', 'eq', 'ne')]
+        ok = bool(muls) and all(set(m) == {A1, A2} for m in muls) and len(cmps) == 1 and all(T.norm(x) == T.norm(PROD) for x in cmps[0])
+        others = sorted({t['f'].get('name') for _, t in sm.calls()} - {'mul', 'cmp', 'eq', 'ne', 'to_bigint', 'clone', 'into', 'from'})
+        rep.ob('C14.helpers', 'safe_mult', ok and not others,
+               f'safe_mult: products {[tuple(exprtree.show(x) for x in m) for m in muls][:3]}, comparison {[tuple(exprtree.show(x) for x in c) for c in cmps][:1]}'
+               f', other operations {others} (expected: a * b as field elements compared with a * b as integers)', sm.loc(), cfg)
+    sd = db.fns.get('swiftness_air::layout::safe_div')
+    if sd is not None and sd.has_mir:
+        T = exprtree.Trees(db, sd)
+        divs = [(t['f'].get('name'), tuple(T.operand(a) for a in t['args'])) for _, t in sd.calls()
+                if t['f'].get('name') in ('floor_div', 'field_div', 'div', 'div_rem', 'rem')]
+        ok = divs == [('floor_div', (A1, A2))]
+        rep.ob('C14.helpers', 'safe_div', ok, f'safe_div: {[(n, tuple(exprtree.show(x) for x in a)) for n, a in divs]} (expected floor_div(value, divisor))',
+               sd.loc(), cfg)
